@@ -63,6 +63,19 @@ theorem C07_read_at_clock_is_read_of_ancestors (d : Doc) (hch : Chain d.applied)
   have h := restrict_clockAt hch hop heads
   exact ⟨h, by rw [h], fun read => by rw [h]⟩
 
+/-- the same with the numbering hypothesis in the form the change encoding provides it
+    (`OpsNumbered`: the ops of a change carry its actor and the counters startOp, startOp + 1, …) -/
+theorem C07_read_at_clock_numbered (d : Doc) (hch : Chain d.applied)
+    (hpos : ∀ c ∈ d.applied, 1 ≤ c.startOp) (hnum : ∀ c ∈ d.applied, OpsNumbered c)
+    (habove : ∀ c ∈ d.applied, ∀ p ∈ d.applied, p.hash ≠ c.hash → p.hash ∈ d.ancestors [c.hash] →
+      p.startOp + p.ops.length ≤ c.startOp) (heads : List Hash) :
+    restrict d.ops (covers (clockAt d heads)) = (d.at heads).ops :=
+  restrict_clockAt hch (OpOrder.of_numbered hpos hnum habove) heads
+
+example : (∀ c ∈ doc.applied, 1 ≤ c.startOp) ∧ (∀ c ∈ doc.applied, OpsNumbered c) ∧
+    (∀ c ∈ doc.applied, ∀ p ∈ doc.applied, p.hash ≠ c.hash → p.hash ∈ doc.ancestors [c.hash] →
+      p.startOp + p.ops.length ≤ c.startOp) := by decide
+
 example : restrict doc.ops (covers (clockAt doc [[2], [3]])) =
       [Ex.putOp 1 [0xA] 10 [], Ex.putOp 2 [0xB] 20 [⟨1, [0xA]⟩], Ex.putOp 2 [0xC] 30 [⟨1, [0xA]⟩]] ∧
     (doc.at [[2], [3]]).applied = [Ex.a1, Ex.b1, Ex.c1] ∧
